@@ -188,6 +188,29 @@ CHECKS = {
             'Trusted: the differential oracle against fresh loaders; the time verdict is taken on CPU seconds of the child with '
             'double confirmation in a fresh process.',
             'DESIGN.md section 5, C12; 3.5'),
+    'C05': ('enumerator',
+            'bounded exhaustive enumeration of well-formed programs x four action homes through the real prebuild and text generation; strict parse-tree comparison and regeneration fixed point',
+            'A consistent host model (classes A, B, C with every core attribute type, enum, derived and referential attributes; '
+            'simple, reflexive and linked relationships with all R_OIR/R_RGO/R_RTO rows; functions, bridges, instance and class '
+            'operations, enumeration, constant) is built through the xtuml API; four program families (every statement form; '
+            'typed expression trees to depth 3 (thorough 4); sequences of length 2-3 (3-4) over statement menus; control-flow '
+            'nesting 2 (3)), filtered for well-formedness per home by an independent scoping/typing analyser, are placed in '
+            'function, bridge, instance operation and derived-attribute homes, translated by prebuild_action / prebuild_model '
+            'in a forked snapshot of the host, regenerated with gen_text_action, and the parse of the generated text compared '
+            'strictly with the printed tree (modulo the optional words of the language); translating the generated text again '
+            'must reproduce the same text.',
+            'Trusted: mc/refs/prebuildhost.py (host, analyser), oalast printer. Un-namespaced constants, ports, signals, events excluded.',
+            'DESIGN.md section 5, C05'),
+    'C06': ('enumerator',
+            'the same bounded exhaustive program families and homes as C05; independent constraint counter, subtype counts, chain directions, positions, block membership and typing on the prebuilt population',
+            'For every program x home of the C05 families, in two (thorough three) layouts: the model is consistent '
+            '(is_consistent and an independent count of every multiplicity/uniqueness constraint of the ooaofooa schema); every '
+            'ACT_SMT / V_VAL has exactly one subtype counted over all subtype classes; Previous_Statement_ID, Next_Value_ID and '
+            'Next_Link_ID as persisted designate the neighbour in source order (none at the ends); statements and values carry '
+            'the line/columns recorded by the printer; every variable belongs to the block that declares it; value and variable '
+            'data types equal the OAL typing the statement enumerates.',
+            'Trusted: prebuildhost analyser and constraint counter. Arithmetic result types, selected, elif/else pseudo-statements are not claimed.',
+            'DESIGN.md section 5, C06'),
 }
 
 NOT_YET = 'check not built yet in this revision (planned, see DESIGN.md section 5); not claimed until it exists'
